@@ -7,6 +7,8 @@ package main
 
 import (
 	"bytes"
+	"context"
+	"sync"
 
 	"github.com/Query-farm/vgi-rpc-go/vgirpc"
 	"github.com/apache/arrow-go/v18/arrow"
@@ -118,4 +120,81 @@ func InputBytesTyped(schema *arrow.Schema, items []InputItem) []byte {
 		panic(err)
 	}
 	return buf.Bytes()
+}
+
+// ---------------------------------------------------------------- dynamic stream method (added for C06, wave 3)
+
+// dynExch is an exchange-ONLY view of a scripted state (ScriptState itself implements
+// both Produce and Exchange, and a dynamic method picks producer mode first).
+type dynExch struct{ S *ScriptState }
+
+func (d *dynExch) Exchange(ctx context.Context, in arrow.RecordBatch, out *vgirpc.OutputCollector, cc *vgirpc.CallContext) error {
+	return d.S.Exchange(ctx, in, out, cc)
+}
+
+// dynExchC additionally has the cancel hook.
+type dynExchC struct{ dynExch }
+
+func (d *dynExchC) OnCancel(ctx context.Context, cc *vgirpc.CallContext) error {
+	if sf := surfaceByID(d.S.SID); sf != nil {
+		sf.trace("cancel@%d", d.S.Pos)
+	}
+	return nil
+}
+
+type c06DynSpec struct {
+	exchange bool
+	declared string
+}
+
+var c06DynQ sync.Map // surface id -> *[]c06DynSpec (consumed in call order)
+
+func c06PushDyn(sf *Surface, exchange bool, declared string) {
+	v, _ := c06DynQ.LoadOrStore(sf.ID, &[]c06DynSpec{})
+	q := v.(*[]c06DynSpec)
+	sf.mu.Lock()
+	*q = append(*q, c06DynSpec{exchange, declared})
+	sf.mu.Unlock()
+}
+
+// c06RegisterDyn registers "dyn" with DynamicStreamWithHeader on a scripted server: no
+// registered input/output schema; each call's init handler builds its StreamResult from the
+// next StreamScript and the next c06DynSpec (mode, run-time declared input schema).
+func c06RegisterDyn(s *vgirpc.Server, sf *Surface) {
+	vgirpc.DynamicStreamWithHeader(s, "dyn", HdrInt{}.ArrowSchema(), func(_ context.Context, cc *vgirpc.CallContext, p PInt) (*vgirpc.StreamResult, error) {
+		c := sf.popStream()
+		var spec c06DynSpec
+		if v, ok := c06DynQ.Load(sf.ID); ok {
+			q := v.(*[]c06DynSpec)
+			sf.mu.Lock()
+			if len(*q) > 0 {
+				spec, *q = (*q)[0], (*q)[1:]
+			}
+			sf.mu.Unlock()
+		}
+		sf.trace("dyn.init(x=%d)", p.X)
+		emitLogs(cc.ClientLog, c.Init.Logs)
+		if c.Init.Err != nil {
+			return nil, c.Init.Err.raise()
+		}
+		base := &ScriptState{SID: sf.ID, Turns: c.Turns}
+		r := &vgirpc.StreamResult{OutputSchema: outSchemaV}
+		switch {
+		case spec.exchange && c.Canceller:
+			r.State = &dynExchC{dynExch{base}}
+		case spec.exchange:
+			r.State = &dynExch{base}
+		case c.Canceller:
+			r.State = &ScriptStateC{*base}
+		default:
+			r.State = base
+		}
+		if spec.exchange {
+			r.InputSchema = InputSchemaVariant(c06DeclClient[spec.declared])
+		}
+		if c.Header != nil {
+			r.Header = HdrInt{H: *c.Header}
+		}
+		return r, nil
+	})
 }
